@@ -4,6 +4,8 @@ From GV Require Import C45.Model C45.Trace C45.Sem C45.Chain.
 Import ListNotations.
 Open Scope Z_scope.
 
+Ltac splits := repeat match goal with |- _ /\ _ => split end.
+
 Definition isnil {A} (l : list A) : bool := match l with [] => true | _ => false end.
 Lemma isnil_true {A} (l : list A) : isnil l = true -> l = [].
 Proof. destruct l; simpl; congruence. Qed.
@@ -126,6 +128,40 @@ Proof.
   - intros H; inversion H; subst; clear H. simpl. split; [constructor|intros []].
 Qed.
 
+Lemma flow_eff_req o st n st' d b : flow_eff o st (FromDown (URequest n)) st' d b ->
+  exists out, f_buf st = out ++ f_buf st' /\ f_ts st' = f_ts st /\ f_completing st' = f_completing st /\
+    d = delems out ++ (if f_completing st && isnil (f_buf st') then [DComplete] else []) /\
+    b = f_completing st && isnil (f_buf st').
+Proof. inversion 1; subst. eexists; splits; try eassumption; try reflexivity. Qed.
+
+Lemma flow_eff_elem o st v st' d b : flow_eff o st (FromUp (DElem v)) st' d b ->
+  (exists ts1 outs out, op_step o (f_ts st) v = (ts1, EOut outs) /\ f_buf st ++ outs = out ++ f_buf st' /\
+     f_ts st' = ts1 /\ f_completing st' = f_completing st /\
+     d = delems out ++ (if f_completing st && isnil (f_buf st') then [DComplete] else []) /\
+     b = f_completing st && isnil (f_buf st')) \/
+  (exists ts1 e, op_step o (f_ts st) v = (ts1, EErr e) /\ op_resumes o = true /\
+     f_buf st' = f_buf st /\ f_ts st' = f_ts st /\ f_completing st' = f_completing st /\ d = [] /\ b = false) \/
+  (exists ts1 e, op_step o (f_ts st) v = (ts1, EErr e) /\ op_resumes o = false /\ st' = st /\ d = [DError e] /\ b = true).
+Proof.
+  inversion 1; subst.
+  - left. do 3 eexists. splits; try eassumption; try reflexivity.
+  - right. left. do 2 eexists. splits; try eassumption; try reflexivity.
+  - right. right. do 2 eexists. splits; try eassumption; try reflexivity.
+Qed.
+
+Lemma flow_eff_complete o st st' d b : flow_eff o st (FromUp DComplete) st' d b ->
+  exists out, f_buf st = out ++ f_buf st' /\ f_ts st' = f_ts st /\ f_completing st' = true /\
+    d = delems out ++ (if isnil (f_buf st') then [DComplete; DComplete] else []) /\ b = isnil (f_buf st').
+Proof. inversion 1; subst. eexists; splits; try eassumption; try reflexivity. Qed.
+
+Lemma flow_eff_error o st e st' d b : flow_eff o st (FromUp (DError e)) st' d b ->
+  st' = st /\ d = [DError e] /\ b = true.
+Proof. inversion 1; subst. auto. Qed.
+Lemma flow_eff_cancel o st st' d b : flow_eff o st (FromDown UCancel) st' d b -> st' = st /\ d = [] /\ b = true.
+Proof. inversion 1; subst. auto. Qed.
+Lemma flow_eff_worker o st s st' d b : flow_eff o st (WorkerDone s) st' d b -> st' = st /\ d = [] /\ b = false.
+Proof. inversion 1; subst. auto. Qed.
+
 (* ---------- the invariant ---------- *)
 Section Flow.
   Variable o : op.
@@ -189,90 +225,68 @@ Section Flow.
     assert (Tn : term_of (n_cout n) = None) by (rewrite Eo; apply term_of_delems).
     set (xs := elems_of (n_cin n)) in *.
     exists st'. split; [exact St|].
-    inversion Eff; subst; clear Eff.
-    - (* request *)
-      rewrite <- H1 in *. rewrite <- H2 in *.
-      assert (Eb' : (em ++ out) ++ f_buf st' = rf_out (run_flow o (op_init o) xs))
-        by (rewrite <- app_assoc, <- H3; exact Eb).
-      rewrite Ci, Co, Ca, Al.
-      destruct (f_completing st && isnil (f_buf st')) eqn:Hfin; simpl.
-      + apply andb_prop in Hfin. destruct Hfin as [Hcomp Hnil]. apply isnil_true in Hnil.
-        rewrite Hnil, app_nil_r in Eb'.
-        destruct Hterm as [[_ F]|[Tc _]]; [congruence|].
-        split; [apply (wf_app_none (n_cout n) out [DComplete] DComplete); auto|].
-        split; [discriminate|]. intros _. right. rewrite Eo, app_assoc. unfold delems at 1 2. rewrite <- map_app.
-        apply (frozen_complete (n_cin n) (em ++ out) 1); auto.
-      + rewrite app_nil_r. rewrite Eo. unfold delems. rewrite <- map_app.
+    assert (Wc : match m with FromUp d => wf_trace (n_cin n) | _ => True end).
+    { destruct m; auto. eapply wf_prefix; eauto. }
+    assert (Tcin : forall d, m = FromUp d -> d <> DComplete -> term_of (n_cin n) = None).
+    { intros d -> Hd. destruct Hterm as [[T _]|[T _]]; auto.
+      specialize (wf_snoc_some _ _ _ Wc T Wm). congruence. }
+    destruct m as [[v| |e]|[k|]|s].
+    - (* element *)
+      specialize (Tcin _ eq_refl ltac:(discriminate)).
+      destruct Hterm as [[_ Hcf]|[F _]]; [|congruence].
+      destruct (elems_of_snoc_none (n_cin n) (DElem v) Tcin) as [Ex Tx].
+      destruct (flow_eff_elem _ _ _ _ _ _ Eff) as
+          [[ts1 [outs [out [Hs [Hb [Ht [Hc [Hd Hsh]]]]]]]]|[[ts1 [e [Hs [Hres [Hb [Ht [Hc [Hd Hsh]]]]]]]]|[ts1 [e [Hs [Hres [Hst' [Hd Hsh]]]]]]]].
+      + (* transformed *)
+        rewrite Hcf in Hd, Hsh. simpl in Hd, Hsh. rewrite app_nil_r in Hd.
+        rewrite Ci, Co, Ca, Al, Hd, Hsh. simpl. rewrite Ex, Tx. fold xs.
+        assert (Hrun : run_flow o (op_init o) (xs ++ [v]) =
+                       (ts1, rf_out (run_flow o (op_init o) xs) ++ outs, None)).
+        { rewrite run_flow_app. destruct (run_flow o (op_init o) xs) as [[s1 o1] e1] eqn:Er.
+          unfold rf_err, rf_state, rf_out in *. simpl in *. subst e1. rewrite <- Hts, Hs. simpl.
+          rewrite app_nil_r. reflexivity. }
+        rewrite Hrun. unfold rf_err, rf_state, rf_out. simpl.
+        rewrite Eo. unfold delems. rewrite <- map_app.
         split; [apply wf_delems|]. split; [|discriminate].
+        intros _. split; [exact Nc|]. split; [reflexivity|]. split; [exact Ht|].
+        split; [|left; split; congruence].
+        exists (em ++ out). split; [reflexivity|]. rewrite <- app_assoc, <- Hb, app_assoc. f_equal. exact Eb.
+      + (* dropped by Resume *)
+        rewrite Ci, Co, Ca, Al, Hd, Hsh. simpl. rewrite app_nil_r. rewrite Ex, Tx. fold xs.
+        assert (Hrun : run_flow o (op_init o) (xs ++ [v]) = run_flow o (op_init o) xs).
+        { rewrite run_flow_app. destruct (run_flow o (op_init o) xs) as [[s1 o1] e1] eqn:Er.
+          unfold rf_err, rf_state, rf_out in *. simpl in *. subst e1. rewrite <- Hts, Hs, Hres. simpl.
+          rewrite app_nil_r. reflexivity. }
+        rewrite Hrun.
+        split; [exact W|]. split; [|discriminate].
         intros _. split; [exact Nc|]. split; [exact He|]. split; [congruence|].
-        split; [exists (em ++ out); auto|]. rewrite H7. exact Hterm.
-    - (* element, transformed *)
-      rewrite <- H1 in *. rewrite <- H2 in *.
-      assert (Tcin : term_of (n_cin n) = None).
-      { destruct Hterm as [[T _]|[T _]]; auto. pose proof (wf_snoc_some _ _ _ (wf_prefix _ _ Wm) T) as X.
-        assert (Wc : wf_trace (n_cin n)) by (eapply wf_prefix; eauto). specialize (wf_snoc_some _ _ _ Wc T Wm). discriminate. }
-      destruct Hterm as [[_ Hcf]|[F _]]; [|congruence].
-      destruct (elems_of_snoc_none (n_cin n) (DElem v) Tcin) as [Ex Tx].
-      rewrite Hcf in *. simpl.
-      rewrite Ci, Co, Ca, Al. simpl. rewrite app_nil_r.
-      rewrite Ex, Tx. fold xs.
-      assert (Hrun : run_flow o (op_init o) (xs ++ [v]) =
-                     (ts1, rf_out (run_flow o (op_init o) xs) ++ outs, None)).
-      { rewrite run_flow_app. destruct (run_flow o (op_init o) xs) as [[s1 o1] e1] eqn:Er.
-        unfold rf_err, rf_state, rf_out in *. simpl in *. subst e1. rewrite <- Hts, H5. simpl.
-        rewrite app_nil_r. reflexivity. }
-      rewrite Hrun. unfold rf_err, rf_state, rf_out. simpl.
-      rewrite Eo. unfold delems. rewrite <- map_app.
-      split; [apply wf_delems|]. split; [|discriminate].
-      intros _. split; [exact Nc|]. split; [reflexivity|]. split; [exact H7|].
-      split; [|left; split; congruence].
-      exists (em ++ out). split; [reflexivity|]. rewrite <- app_assoc, <- H6, app_assoc. f_equal. exact Eb.
-    - (* element, dropped by Resume *)
-      assert (Tcin : term_of (n_cin n) = None).
-      { destruct Hterm as [[T _]|[T _]]; auto.
-        assert (Wc : wf_trace (n_cin n)) by (eapply wf_prefix; eauto). specialize (wf_snoc_some _ _ _ Wc T Wm). discriminate. }
-      destruct Hterm as [[_ Hcf]|[F _]]; [|congruence].
-      destruct (elems_of_snoc_none (n_cin n) (DElem v) Tcin) as [Ex Tx].
-      rewrite Ci, Co, Ca, Al. simpl. rewrite app_nil_r. rewrite Ex, Tx. fold xs.
-      assert (Hrun : run_flow o (op_init o) (xs ++ [v]) = run_flow o (op_init o) xs).
-      { rewrite run_flow_app. destruct (run_flow o (op_init o) xs) as [[s1 o1] e1] eqn:Er.
-        unfold rf_err, rf_state, rf_out in *. simpl in *. subst e1. rewrite <- Hts, H0, H1. simpl.
-        rewrite app_nil_r. reflexivity. }
-      rewrite Hrun.
-      split; [exact W|]. split; [|discriminate].
-      intros _. split; [exact Nc|]. split; [exact He|]. split; [congruence|].
-      split; [exists em; split; [exact Eo|congruence]|left; split; congruence].
-    - (* element, FailFast *)
-      assert (Tcin : term_of (n_cin n) = None).
-      { destruct Hterm as [[T _]|[T _]]; auto.
-        assert (Wc : wf_trace (n_cin n)) by (eapply wf_prefix; eauto). specialize (wf_snoc_some _ _ _ Wc T Wm). discriminate. }
-      destruct (elems_of_snoc_none (n_cin n) (DElem v) Tcin) as [Ex Tx].
-      rewrite Ci, Co, Ca, Al. simpl.
-      split; [apply (wf_app_none (n_cout n) [] [DError e] (DError e)); auto|].
-      split; [discriminate|]. intros _. right. intros S [P [_ _]]. rewrite Ex in P. fold xs in P.
-      assert (Hrun : run_flow o (op_init o) (xs ++ [v]) =
-                     (rf_state (run_flow o (op_init o) xs), rf_out (run_flow o (op_init o) xs), Some e)).
-      { rewrite run_flow_app. destruct (run_flow o (op_init o) xs) as [[s1 o1] e1] eqn:Er.
-        unfold rf_err, rf_state, rf_out in *. simpl in *. subst e1. rewrite <- Hts, H0, H1. simpl.
-        rewrite app_nil_r. reflexivity. }
-      assert (HS : run_flow o (op_init o) (fst S) = run_flow o (op_init o) (xs ++ [v])).
-      { eapply run_flow_prefix_err; eauto. rewrite Hrun. reflexivity. }
-      simpl. rewrite HS, Hrun. unfold rf_err, rf_out. simpl.
-      destruct (term_elems_app_none (n_cout n) [] [DError e] Tn) as [E T]. simpl in E, T.
-      unfold approx. rewrite E, T, Eo, elems_of_delems, app_nil_r. simpl.
-      split; [rewrite <- Eb; apply prefix_app|]. split; [intros; discriminate|].
-      intros e' X. inversion X; subst. apply in_or_app. right. left. reflexivity.
+        split; [exists em; split; [exact Eo|congruence]|left; split; congruence].
+      + (* FailFast *)
+        rewrite Ci, Co, Ca, Al, Hd, Hsh. simpl.
+        split; [apply (wf_app_none (n_cout n) [] [DError e] (DError e)); auto|].
+        split; [discriminate|]. intros _. right. intros S [P [_ _]]. rewrite Ex in P. fold xs in P.
+        assert (Hrun : run_flow o (op_init o) (xs ++ [v]) =
+                       (rf_state (run_flow o (op_init o) xs), rf_out (run_flow o (op_init o) xs), Some e)).
+        { rewrite run_flow_app. destruct (run_flow o (op_init o) xs) as [[s1 o1] e1] eqn:Er.
+          unfold rf_err, rf_state, rf_out in *. simpl in *. subst e1. rewrite <- Hts, Hs, Hres. simpl.
+          rewrite app_nil_r. reflexivity. }
+        assert (HS : run_flow o (op_init o) (fst S) = run_flow o (op_init o) (xs ++ [v])).
+        { apply (run_flow_prefix_err o (op_init o) (xs ++ [v]) (fst S) e P). rewrite Hrun. reflexivity. }
+        simpl. rewrite HS, Hrun. unfold rf_err, rf_out. simpl.
+        destruct (term_elems_app_none (n_cout n) [] [DError e] Tn) as [E T]. simpl in E, T.
+        unfold approx. rewrite E, T, Eo, elems_of_delems, app_nil_r. simpl.
+        split; [unfold rf_out in Eb; rewrite <- Eb; apply prefix_app|]. split; [intros; discriminate|].
+        intros e' X. inversion X; subst. apply in_or_app. right. left. reflexivity.
     - (* complete *)
-      assert (Wc : wf_trace (n_cin n)) by (eapply wf_prefix; eauto).
+      destruct (flow_eff_complete _ _ _ _ _ Eff) as [out [Hb [Ht [Hc [Hd Hsh]]]]].
       assert (Tx : term_of (n_cin n ++ [DComplete]) = Some DComplete /\ elems_of (n_cin n ++ [DComplete]) = xs).
       { destruct Hterm as [[T _]|[T _]].
         - destruct (elems_of_snoc_none _ DComplete T) as [E1 T1]. rewrite app_nil_r in E1. auto.
         - destruct (elems_of_snoc_some _ DComplete _ T) as [E1 T1]. auto. }
       destruct Tx as [Tx Ex].
-      rewrite <- H1 in *.
       assert (Eb' : (em ++ out) ++ f_buf st' = rf_out (run_flow o (op_init o) xs))
-        by (rewrite <- app_assoc, <- H0; exact Eb).
-      rewrite Ci, Co, Ca, Al, Ex, Tx.
+        by (rewrite <- app_assoc, <- Hb; exact Eb).
+      rewrite Ci, Co, Ca, Al, Ex, Tx, Hd, Hsh.
       destruct (isnil (f_buf st')) eqn:Hnil; simpl.
       + apply isnil_true in Hnil. rewrite Hnil, app_nil_r in Eb'.
         split; [apply (wf_app_none (n_cout n) out [DComplete; DComplete] DComplete); auto|].
@@ -283,11 +297,10 @@ Section Flow.
         intros _. split; [exact Nc|]. split; [exact He|]. split; [congruence|].
         split; [exists (em ++ out); auto|right; auto].
     - (* upstream error *)
-      assert (Wc : wf_trace (n_cin n)) by (eapply wf_prefix; eauto).
-      assert (Tcin : term_of (n_cin n) = None).
-      { destruct Hterm as [[T _]|[T _]]; auto. specialize (wf_snoc_some _ _ _ Wc T Wm). discriminate. }
+      specialize (Tcin _ eq_refl ltac:(discriminate)).
+      destruct (flow_eff_error _ _ _ _ _ _ Eff) as [Hst' [Hd Hsh]].
       destruct (elems_of_snoc_none (n_cin n) (DError e) Tcin) as [Ex Tx]. rewrite app_nil_r in Ex.
-      rewrite Ci, Co, Ca, Al. simpl.
+      rewrite Ci, Co, Ca, Al, Hd, Hsh. simpl.
       split; [apply (wf_app_none (n_cout n) [] [DError e] (DError e)); auto|].
       split; [discriminate|]. intros _. right. intros S [P [_ Er]]. rewrite Ex in P. fold xs in P.
       specialize (Er e Tx). simpl.
@@ -296,11 +309,30 @@ Section Flow.
       split.
       + eapply prefix_trans; [|apply (run_flow_prefix_ok o (op_init o) _ _ P He)]. rewrite <- Eb. apply prefix_app.
       + split; [intros; discriminate|]. intros e' X. inversion X; subst. apply in_or_app. left. exact Er.
+    - (* request *)
+      destruct (flow_eff_req _ _ _ _ _ _ Eff) as [out [Hb [Ht [Hc [Hd Hsh]]]]].
+      assert (Eb' : (em ++ out) ++ f_buf st' = rf_out (run_flow o (op_init o) xs))
+        by (rewrite <- app_assoc, <- Hb; exact Eb).
+      rewrite Ci, Co, Ca, Al, Hd, Hsh. fold xs.
+      destruct (f_completing st && isnil (f_buf st')) eqn:Hfin; simpl.
+      + apply andb_prop in Hfin. destruct Hfin as [Hcomp Hnil]. apply isnil_true in Hnil.
+        rewrite Hnil, app_nil_r in Eb'.
+        destruct Hterm as [[_ F]|[Tc _]]; [congruence|].
+        split; [apply (wf_app_none (n_cout n) out [DComplete] DComplete); auto|].
+        split; [discriminate|]. intros _. right. rewrite Eo, app_assoc. unfold delems at 1 2. rewrite <- map_app.
+        apply (frozen_complete (n_cin n) (em ++ out) 1); auto.
+      + rewrite app_nil_r. rewrite Eo. unfold delems. rewrite <- map_app.
+        split; [apply wf_delems|]. split; [|discriminate].
+        intros _. split; [exact Nc|]. split; [exact He|]. split; [congruence|].
+        split; [exists (em ++ out); auto|]. rewrite Hc. exact Hterm.
     - (* cancel *)
-      rewrite Ci, Co, Ca, Al. simpl. rewrite app_nil_r.
+      destruct (flow_eff_cancel _ _ _ _ _ Eff) as [Hst' [Hd Hsh]].
+      rewrite Ci, Co, Ca, Al, Hd, Hsh. simpl. rewrite app_nil_r.
       split; [exact W|]. split; [discriminate|]. intros _. left. reflexivity.
     - (* worker message: ignored *)
-      rewrite Ci, Co, Ca, Al. simpl. rewrite app_nil_r.
-      split; [exact W|]. split; [|discriminate]. intros _. auto 10.
+      destruct (flow_eff_worker _ _ _ _ _ _ Eff) as [Hst' [Hd Hsh]].
+      rewrite Ci, Co, Ca, Al, Hd, Hsh, Hst'. simpl. rewrite app_nil_r. fold xs.
+      split; [exact W|]. split; [|discriminate]. intros _. split; [exact Nc|]. split; [exact He|].
+      split; [exact Hts|]. split; [exists em; auto|exact Hterm].
   Qed.
 End Flow.
